@@ -1,2 +1,223 @@
+"""C05 character level: E1 o E2 differential for plain texts + opaque regions are single tokens."""
+import time
+
+import z3
+
+from .. import lexsmt, par, regions, splitchar
+from ..common import HarnessError
+
+
+def _init(N):
+    tb = lexsmt.LexTables()
+    return dict(tb=tb, cs=splitchar.CharSplit(tb, N), N=N)
+
+
+def _kw_guard(cs, p, words_exact, prefixes):
+    """token at p is keyword-typed and its upper-cased value is one of words / starts with a prefix"""
+    lm, tb, dom = cs.lm, cs.tb, cs.dom
+    T = tb.T
+    alts = []
+    for guard, tt in dom.cases(p):
+        if tt in T.Keyword:
+            vs = [lm.slice_upper_is(p, lm.tokEnd[p], w) for w in words_exact]
+            vs += [lm.slice_upper_startswith(p, lm.tokEnd[p], w) for w in prefixes]
+            alts.append(z3.And(guard, z3.Or(*vs)))
+    return z3.Or(*alts) if alts else z3.BoolVal(False)
+
+
+def _type_guard(cs, p, pred):
+    return z3.Or(*([g for g, tt in cs.dom.cases(p) if pred(tt)] or [z3.BoolVal(False)]))
+
+
+def _plain_worker(ctx, item):
+    cs, tb = ctx['cs'], ctx['tb']
+    lm, N, T = cs.lm, cs.N, tb.T
+    s = z3.Solver()
+    s.set('timeout', item['timeout_ms'])
+    s.add(*cs.cons)
+    t0 = time.time()
+    depth = z3.IntVal(0)
+    sidx = z3.IntVal(0)
+    acc = z3.IntVal(0)
+    valid = z3.BoolVal(True)
+    mism = []
+    for p in range(N):
+        g = lm.tok_at(p)
+        is_p = _type_guard(cs, p, lambda tt: tt is T.Punctuation)
+        one = lm.tokEnd[p] == p + 1
+        op = z3.And(g, is_p, one, lm.t.c[p] == ord('('))
+        cl = z3.And(g, is_p, one, lm.t.c[p] == ord(')'))
+        semi = z3.And(g, is_p, one, lm.t.c[p] == ord(';'))
+        insig = _type_guard(cs, p, lambda tt: tt in T.Whitespace or tt in T.Comment)
+        excluded = _kw_guard(cs, p, ['BEGIN', 'DECLARE', 'GO'], ['END', 'GO'])
+        valid = z3.And(valid, z3.Implies(g, z3.Not(excluded)), z3.Implies(cl, depth > 0))
+        acc = acc + z3.If(cs.flush[p], 1, 0)
+        mism.append(z3.And(g, z3.Not(insig), acc != sidx))
+        sidx = z3.If(z3.And(semi, depth == 0), sidx + 1, sidx)
+        depth = z3.If(op, depth + 1, z3.If(cl, depth - 1, depth))
+    s.add(valid)
+    s.push()
+    s.add(sidx >= 2)
+    twin = s.check()
+    s.pop()
+    s.add(z3.Or(*[mism[p] for p in item['positions']]))
+    r = s.check()
+    out = dict(res=str(r), twin=str(twin), s=time.time() - t0, positions=item['positions'])
+    if r == z3.sat:
+        out['witness'] = lm.t.value(s.model())
+    return out
+
+
+def plain_text_oracle(text):
+    """public API replay: statements of split() vs depth-0 semicolons (Punctuation tokens)"""
+    import sqlparse
+    from sqlparse import lexer, tokens as T
+    toks = list(lexer.tokenize(text))
+    depth = sidx = 0
+    ridx = []
+    for tt, v in toks:
+        ridx.append(sidx)
+        if tt is T.Punctuation and v == '(':
+            depth += 1
+        elif tt is T.Punctuation and v == ')':
+            depth -= 1
+            if depth < 0:
+                return None
+        elif tt is T.Punctuation and v == ';' and depth == 0:
+            sidx += 1
+        if tt in T.Keyword:
+            u = v.upper()
+            if u in ('BEGIN', 'DECLARE', 'GO') or u.startswith('END') or u.split()[0] == 'GO':
+                return None
+    iidx = []
+    for k, st in enumerate(sqlparse.parse(text)):
+        iidx += [k] * len(list(st.flatten()))
+    bad = [i for i, (tt, v) in enumerate(toks) if not (tt in T.Whitespace or tt in T.Comment)
+           and (i >= len(iidx) or iidx[i] != ridx[i])]
+    return dict(mismatch=bad, split=sqlparse.split(text), expected=(max([ridx[i] for i, (tt, v) in enumerate(toks) if not (tt in T.Whitespace or tt in T.Comment)] or [-1]) + 1))
+
+
+def _region_worker(ctx, item):
+    """C05 reading of a string literal: body = non-quote non-backslash | '' | backslash + non-quote"""
+    kind, a, b = item
+    cs, tb = ctx['cs'], ctx['tb']
+    lm = cs.lm
+    s = z3.Solver()
+    s.add(*lm.cons)
+    t0 = time.time()
+    if kind in ('sq_bs', 'dq_bs'):
+        q = "'" if kind == 'sq_bs' else '"'
+        ch = lambda i, c: lm.t.c[i] == ord(c)
+        if b - a < 2 or b > lm.N:
+            return dict(item=item, res='skip', s=0)
+        good = {b - 1: z3.BoolVal(True), b: z3.BoolVal(False)}
+        for i in range(b - 2, a, -1):
+            single = z3.And(z3.Not(ch(i, q)), z3.Not(ch(i, '\\')), good[i + 1])
+            alts = [single]
+            if i + 1 <= b - 2:
+                alts.append(z3.And(ch(i, q), ch(i + 1, q), good[i + 2]))
+                alts.append(z3.And(ch(i, '\\'), z3.Not(ch(i + 1, q)), z3.Not(ch(i + 1, '\\')), good[i + 2]))
+            good[i] = z3.Or(*alts)
+        reg = z3.And(ch(a, q), ch(b - 1, q), good[a + 1], lm.t.L >= b)
+    else:
+        reg = regions.region(kind, lm, a, b, tb)
+    has_semi = z3.Or(*[lm.t.c[i] == ord(';') for i in range(a + 1, b - 1)] or [z3.BoolVal(False)])
+    s.add(reg, has_semi, lm.tok_at(a), regions.delim_left(lm, a, tb), regions.delim_right(lm, b, tb))
+    reach = s.check()
+    s.add(lm.tokEnd[a] != b)
+    r = s.check()
+    out = dict(item=item, reach=str(reach), res=str(r), s=time.time() - t0)
+    if r == z3.sat:
+        out['witness'] = lm.t.value(s.model())
+    return out
+
+
 def run_into(chk, tier):
-    pass
+    from sqlparse.engine.statement_splitter import StatementSplitter as SS
+    import sqlparse
+    N = 8 if tier == 'quick' else 10
+    nparts = 8
+    pos = list(range(N))
+    items = [dict(positions=pos[i::nparts], timeout_ms=900000) for i in range(nparts) if pos[i::nparts]]
+    t0 = time.time()
+    results = par.pmap(_plain_worker, items, init=_init, init_args=(N,))
+    nq = nd = 0
+    ss = 0.0
+    for st, r in results:
+        if st != 'ok':
+            chk.fail_inconclusive('C05 char worker: ' + r[:300])
+            continue
+        nq += 1
+        ss += r['s']
+        if r['twin'] != 'sat':
+            chk.fail_inconclusive(f'C05 char level: twin {r["twin"]}')
+        if r['res'] == 'unsat':
+            nd += 1
+        elif r['res'] == 'sat':
+            txt = r['witness']
+            o = plain_text_oracle(txt)
+            if o and o['mismatch']:
+                chk.report('char-level:boundary-differs', f'{txt!r} -> {o["split"]!r}, depth-0 semicolons say {o["expected"]} statements',
+                           dict(input=txt, observed=o['split'], expected_statements=o['expected'],
+                                reproduce=f"cd /repo && /venv/bin/python -c \"import sqlparse; print(sqlparse.split({txt!r}))\""))
+            else:
+                chk.fail_inconclusive(f'C05 char level: witness {txt!r} not reproduced')
+        else:
+            chk.fail_inconclusive(f'C05 char level: {r["res"]}')
+    chk.obligation(f'C05 character level: every text of <= {N} characters without BEGIN/DECLARE/END*/GO keywords and with never-negative parenthesis depth splits exactly at depth-0 semicolons',
+                   'E1 o E2 (lexsmt + py2smt) / z3', nq, nd, ss, wall_s=round(time.time() - t0, 1), text_len=N)
+    chk.sample(dict(obligation='C05 char', query='valid(text) & exists significant token whose #flushes-before != #depth-0-semicolons-before : unsat'))
+    # ---- opaque regions containing `;` are ONE token (so the splitter, which works on tokens, cannot cut them)
+    NR = 9 if tier == 'quick' else 11
+    kinds = ['sq_bs', 'dq_bs', 'bt_name', 'dollar', 'ml_comment', 'sl_comment']
+    ritems = []
+    for k in kinds:
+        for a in (0, 1):
+            for b in range(a + 3, NR + 1):
+                ritems.append((k, a, b))
+    t0 = time.time()
+
+    def _init2():
+        tb = lexsmt.LexTables()
+
+        class CS:
+            pass
+        c = CS()
+        c.lm = lexsmt.LexModel(tb, NR)
+        return dict(tb=tb, cs=c)
+    results = par.pmap(_region_worker, ritems, init=_init2)
+    nq = nd = 0
+    ss = 0.0
+    reach = 0
+    for st, r in results:
+        if st != 'ok':
+            chk.fail_inconclusive('C05 region worker: ' + r[:300])
+            continue
+        if r['res'] == 'skip':
+            continue
+        nq += 1
+        ss += r['s']
+        reach += r['reach'] == 'sat'
+        if r['res'] == 'unsat':
+            nd += 1
+        elif r['res'] == 'sat':
+            txt = r['witness']
+            kind, a, b = r['item']
+            pieces = sqlparse.split(txt)
+            toks = lexsmt.spans_of_real_tokenize(txt)
+            tok = [x for x in toks if x[0] == a]
+            if not tok or tok[0][1] != b:
+                chk.report(f'opaque-region-split:{kind}', f'{kind} region [{a},{b}) of {txt!r} is not one token: {[(x, y, str(t)) for x, y, t in toks]}; split -> {pieces!r}',
+                           dict(input=txt, region=[a, b], observed=pieces,
+                                reproduce=f"cd /repo && /venv/bin/python -c \"import sqlparse; print(sqlparse.split({txt!r}))\""))
+            else:
+                chk.fail_inconclusive(f'C05 region: witness {txt!r} not reproduced')
+        else:
+            chk.fail_inconclusive(f'C05 region: {r["res"]}')
+    if reach == 0:
+        chk.fail_inconclusive('C05 region: vacuous')
+    chk.obligation(f'C05 opaque regions (string with doubled quotes / backslash+char, quoted names, dollar body, comments) containing `;`, <= {NR} chars, delimiter contexts: lexed as ONE token',
+                   'E1 lexsmt/z3', nq, nd, ss, wall_s=round(time.time() - t0, 1), reachable=reach)
+    chk.functions.append('E1 o E2 composition: keywords.SQL_REGEX + Lexer.is_keyword dictionaries (trie) + StatementSplitter (translated)')
+    chk.bounds['char_level_text_len'] = N
+    chk.bounds['region_text_len'] = NR
